@@ -844,6 +844,10 @@ class ReaderResult:
 CLASSES4 = frozenset({"UNIVERSAL", "APPLICATION", "CONTEXT_SPECIFIC", "PRIVATE"})
 
 
+def const_int_(e) -> Optional[int]:
+    return e.value if isinstance(e, ast.Constant) and isinstance(e.value, int) and not isinstance(e.value, bool) else None
+
+
 class Box:
     """A set of (tag class, tag number) pairs: classes x numbers, numbers given as a finite set or its complement."""
     def __init__(self, classes, nums_in=None, nums_notin=frozenset()):
@@ -1112,6 +1116,22 @@ class ReaderExtractor:
         body = normalise_guards(body)
         res.flat_body = body
         self._block(body, st)
+        # a reader (or a header) that is handed to an object the extractor does not look into - a private cursor / unpacker class -
+        # is consumed out of sight: the grammar extracted here would be missing those reads, so there is no grammar
+        rnames = set(st["readers"]) | set(st["headers"])
+        for c in ast.walk(ast.Module(body=body, type_ignores=[])):
+            if isinstance(c, ast.Call) and isinstance(c.func, (ast.Name, ast.Attribute)):
+                q = self.m.resolve_name(fi.module, norm(c.func))
+                if q in self.m.classes and q != f"{ASN1}.ASN1Reader" and not self.m.classes[q].is_dataclass and \
+                        not any(b.endswith("NamedTuple") for b in self.m.classes[q].bases):
+                    if any(isinstance(a, ast.Name) and a.id in rnames for a in list(c.args) + [k.value for k in c.keywords]):
+                        raise AnalysisError(f"{fi.qualname}:{c.lineno}: the reader is handed to {q.split('.')[-1]}(...), an object whose methods consume it out of the extractor's sight")
+                if isinstance(c.func, ast.Attribute) and c.func.attr != "unpack" and not (isinstance(c.func.value, ast.Name) and c.func.value.id in rnames) and \
+                        q not in self.m.functions and q not in self.m.classes and \
+                        any(isinstance(a, ast.Name) and a.id in st["readers"] for a in list(c.args) + [k.value for k in c.keywords]):
+                    # <something>.method(reader, ...) that is neither a reader method, an unpack of a known type nor a function the
+                    # extractor followed: the reads it makes are not in the grammar
+                    raise AnalysisError(f"{fi.qualname}:{c.lineno}: the reader is handed to `{norm(c.func)[:40]}`, which the extractor does not follow")
         return res
 
     # ------------------------------------------------------------------ helpers
@@ -1210,6 +1230,14 @@ class ReaderExtractor:
                             norm(v.args[1]).split(".")[-1] == "ASN1Header":
                         return True
                     return False
+                def _never(v: ast.expr) -> bool:
+                    # `h is None` / `not h`: false whenever there is a header to test
+                    if isinstance(v, ast.Compare) and len(v.ops) == 1 and isinstance(v.ops[0], ast.Is) and isinstance(v.left, ast.Name) and v.left.id == hv and \
+                            isinstance(v.comparators[0], ast.Constant) and v.comparators[0].value is None:
+                        return True
+                    return isinstance(v, ast.UnaryOp) and isinstance(v.op, ast.Not) and isinstance(v.operand, ast.Name) and v.operand.id == hv
+                if isinstance(t.op, ast.Or):
+                    parts = [([] if (p_ is None and _never(v)) else p_) for p_, v in zip(parts, t.values)]
                 parts = [p_ for p_, v in zip(parts, t.values) if not (p_ is None and _always(v))]
                 if any(p_ is None for p_ in parts) or not parts:
                     return None
@@ -1242,6 +1270,14 @@ class ReaderExtractor:
                 v = self.folder.fold(t.comparators[0], st["fi"].module, st.get("consts"), st["cls"])
             except Unfoldable:
                 return None
+            # h.tag[:2] == (CLASS, NUMBER): class and number compared as one pair
+            if isinstance(t.left, ast.Subscript) and isinstance(t.left.slice, ast.Slice) and t.left.slice.lower is None and const_int_(t.left.slice.upper) == 2 and \
+                    norm(t.left.value) in (hv + ".tag",) and isinstance(v, tuple) and len(v) == 2 and isinstance(v[0], EnumConst) and isinstance(op, (ast.Eq, ast.NotEq)):
+                num = v[1].value if isinstance(v[1], EnumConst) else v[1]
+                if not isinstance(num, int):
+                    return None
+                box = Box({v[0].member}, {num})
+                return [box] if isinstance(op, ast.Eq) else region_not([box])
             vals = list(v) if isinstance(v, tuple) else [v]
             if lt.endswith(".tag_class"):
                 names = {x.member for x in vals if isinstance(x, EnumConst)}
@@ -1949,6 +1985,13 @@ class ReaderExtractor:
                 saved.append(node)
             return
         # other conditions (duplicate checks, `if not unpack_func: raise`): walk both branches for reads
+        t_sub = self._subst_aliases(s.test, st)
+        mentions_header = any(isinstance(x, ast.Name) and x.id in st["headers"] for x in ast.walk(t_sub))
+        reads_inside = any(self._read_call(x, st) is not None for b in list(s.body) + list(s.orelse) for x in ast.walk(b) if isinstance(x, ast.Call))
+        if mentions_header and reads_inside and not (isinstance(t_sub, ast.Name) or (isinstance(t_sub, ast.Compare) and isinstance(t_sub.comparators[0], ast.Constant) and t_sub.comparators[0].value is None)):
+            # a condition on a peeked header that is not understood as a tag test guards a read: reading on would give the
+            # component a wildcard tag - there is no grammar to report on
+            raise AnalysisError(f"{fi.qualname}:{s.lineno}: test `{norm(s.test)[:70]}` on a peeked header is not understood as a tag test")
         self._block(s.body, st)
         self._block(s.orelse, st)
 
